@@ -17,8 +17,9 @@ TECHNIQUE = "runtime monitor in a deterministic world: completion instant on the
 LEVEL_TEXT = ("Hundreds (quick) to tens of thousands (thorough) of seeded schedules: 1-2 requests (simple / bound / paged, up to 4 page fetches) "
               "against nodes that are silent, late, failing or closing, speculative executions on and off, retry decisions hopping hosts, "
               "page fetches started after delays shorter and longer than the timeout. Every page fetch must show an outcome by "
-              "t_start + T + 0.05 s of virtual time. Held-on-observed schedules; the missing timeout of later page fetches on the unchanged "
-              "tree is reported as a known finding by a narrow classifier (later page, not complete at its deadline, a message unanswered).")
+              "t_start + T + 0.05 s of virtual time. Held-on-observed schedules. (The missing timeout of later page fetches this monitor found "
+              "was repaired in the repository, commit 2ddfbd4; its narrow classifier - later page, not complete at its deadline, a message "
+              "unanswered - is kept as an ordinary violation slug.)")
 LEVEL_NOTE = ("Trusted base: sim/world.py (virtual clock, timers fired by the reactor thread), sim/node.py, sim/s1_req.py. Wall-clock behaviour "
               "of the real reactors' timers is out of scope. Query plans are finite (round robin over 1-3 hosts, at most 3 retries).")
 QUICK_WORKERS = 4
